@@ -7,7 +7,7 @@
 (* roots known or not); written from the property text and the published   *)
 (* Chrome / Apple policy tables the code documents.                        *)
 (***************************************************************************)
-EXTENDS Integers, TLC
+EXTENDS Integers, FiniteSets, TLC
 
 None == -1
 
@@ -40,15 +40,63 @@ Logs == {[state |-> st, hasInterval |-> hi, start |-> a, limit |-> b, rootsKnown
 Certs == {[notAfter |-> t, root |-> r] : t \in 1..7, r \in {"RA", "RB"}}
 EligCases == {[t |-> "eligible", log |-> g, cert |-> x] : g \in {y \in Logs : y.start < y.limit}, x \in Certs}
 
-Init == c \in LifetimeCases \cup EligCases
+(***************************************************************************)
+(* What a log says on the wire, and whether that is an SCT.  Behind the    *)
+(* distributor stands a log client that holds the key the log list gives   *)
+(* for the log (submission.BuildLogClient).  "per-log outcomes (SCT,       *)
+(* error, hang)": a reply is an SCT only if it is a well-formed SCT that   *)
+(* names the listed key and verifies under it over the entry submitted;    *)
+(* every other reply is an error outcome, or - where the client keeps      *)
+(* retrying until the caller's context ends - a hang.  A case: policy,     *)
+(* method (add-chain / add-pre-chain), lifetime class (2 or 3 SCTs         *)
+(* demanded), and the reply class of each of three logs (W1 Google, W2 and *)
+(* W3 other operators).                                                    *)
+(***************************************************************************)
+WireLogs == {"W1", "W2", "W3"}
+WireGoogle == {"W1"}
+WireClasses == {
+  "good",        \* 200, SCT signed with the listed key over the submitted entry
+  "otherkey",    \* 200, well-formed SCT carrying the listed key's id, signed with another key
+  "otherkeyid",  \* 200, well-formed SCT of another log: that log's id and key
+  "badsig",      \* 200, signature bytes damaged
+  "othertime",   \* 200, listed key, but the signature covers another timestamp than the one returned
+  "othertype",   \* 200, listed key, signed as the other entry type (certificate <-> precertificate)
+  "otherentry",  \* 200, listed key, signed over a different certificate
+  "trailing",    \* 200, a byte after the DigitallySigned structure
+  "badversion",  \* 200, good signature but sct_version 1 in the reply
+  "http400", "http403", "http500",   \* refused: the client gives up
+  "busy503", "garbage200",           \* the client retries until the caller's context ends: a hang with traffic
+  "hang"}        \* never answers
+WireSCT(k) == k = "good"
+WireHangs(k) == k \in {"busy503", "garbage200", "hang"}
+WireCore == {"otherkey", "http400", "busy503"}
+
+WireReplies == {r \in [WireLogs -> WireClasses] :
+                  LET bad == {l \in WireLogs : r[l] # "good"} IN
+                  \/ Cardinality(bad) <= 1
+                  \/ Cardinality(bad) = 2 /\ \A l \in bad : r[l] \in WireCore}
+WireCases == {[t |-> "wire", policy |-> p, pre |-> b, total |-> n, reply |-> r] :
+                p \in {"chrome", "apple"}, b \in BOOLEAN, n \in {2, 3}, r \in WireReplies}
+
+WireGood(x) == {l \in WireLogs : WireSCT(x.reply[l])}
+WireSatisfied(x, S) == /\ Cardinality(S) >= x.total
+                       /\ (x.policy = "chrome" => (S \cap WireGoogle # {} /\ S \ WireGoogle # {}))
+
+Init == c \in LifetimeCases \cup EligCases \cup WireCases
 Next == UNCHANGED c
 
 Expect(x) == IF x.t = "lifetime"
              THEN LET m == LifetimeMonths(x.s[1], x.s[2], x.s[3], x.e[1], x.e[2], x.e[3]) IN [months |-> m, total |-> Total(m)]
-             ELSE [eligible |-> Eligible(x.log, x.cert)]
+             ELSE IF x.t = "eligible" THEN [eligible |-> Eligible(x.log, x.cert)]
+             ELSE [scts |-> WireGood(x),                          \* the only logs whose SCT may be returned
+                   success |-> WireSatisfied(x, WireGood(x)),     \* the verdict (sound and complete)
+                   waits |-> ~WireSatisfied(x, WireGood(x)) /\ \E l \in WireLogs : WireHangs(x.reply[l])]  \* only the caller's deadline ends it
 
 \* model-level sanity: the policy total is monotone in the lifetime and between 2 and 5
 TotalSane == c.t = "lifetime" => Expect(c).total \in 2..5
 \* a log that is not usable is never eligible; an unbounded log is eligible for every NotAfter
 EligibleSane == c.t = "eligible" => (Expect(c).eligible => c.log.state = "usable")
+\* a success needs as many good replies as SCTs demanded; one bad reply among three logs never breaks the Apple policy at total 2
+WireSane == c.t = "wire" => /\ (Expect(c).success => Cardinality(Expect(c).scts) >= c.total)
+                            /\ ((c.policy = "apple" /\ c.total = 2 /\ Cardinality(WireGood(c)) >= 2) => Expect(c).success)
 =============================================================================
